@@ -28,10 +28,35 @@ package gateway
 //@      state(h) <= 3 && connTx(h)
 
 // ---- sending ----
+// ---- C24: what may be handed to the broker (from the property statement and MQTT 3.1.1) ----
+// QoS values are 0-2; PUBLISH topic names are non-empty and wildcard-free ('+' = 43, '#' = 35) [MQTT-3.3.2-2];
+// SUBSCRIBE/UNSUBSCRIBE carry at least one filter and every filter is non-empty [MQTT-3.8.3-3, MQTT-4.7.3-1];
+// a CONNECT has the will flag set exactly when it carries a non-empty will topic, will QoS 0-2, and
+// will QoS 0 / will retain clear without a will [MQTT-3.1.2-11..15].
+//@ spec noWild(s string) bool = forall i int :: 0 <= i && i < len(s) ==> s[i] != 43 && s[i] != 35
+//@ spec validConnect(c *mqPkts.ConnectPacket) bool = c.WillFlag == (len(c.WillTopic) > 0) && c.WillQos <= 2 &&
+//@      (!c.WillFlag ==> c.WillQos == 0 && !c.WillRetain)
+//@ spec validMqtt(pkt iface) bool =
+//@      (istype(pkt, *mqPkts.PublishPacket) ==> pkt.(*mqPkts.PublishPacket).Qos <= 2 &&
+//@         len(pkt.(*mqPkts.PublishPacket).TopicName) > 0 && noWild(pkt.(*mqPkts.PublishPacket).TopicName)) &&
+//@      (istype(pkt, *mqPkts.SubscribePacket) ==> len(pkt.(*mqPkts.SubscribePacket).Topics) >= 1 &&
+//@         len(pkt.(*mqPkts.SubscribePacket).Qoss) == len(pkt.(*mqPkts.SubscribePacket).Topics) &&
+//@         (forall i int :: 0 <= i && i < len(pkt.(*mqPkts.SubscribePacket).Topics) ==>
+//@            len(pkt.(*mqPkts.SubscribePacket).Topics[i]) > 0 && pkt.(*mqPkts.SubscribePacket).Qoss[i] <= 2)) &&
+//@      (istype(pkt, *mqPkts.UnsubscribePacket) ==> len(pkt.(*mqPkts.UnsubscribePacket).Topics) >= 1 &&
+//@         (forall i int :: 0 <= i && i < len(pkt.(*mqPkts.UnsubscribePacket).Topics) ==> len(pkt.(*mqPkts.UnsubscribePacket).Topics[i]) > 0)) &&
+//@      (istype(pkt, *mqPkts.ConnectPacket) ==> validConnect(pkt.(*mqPkts.ConnectPacket)))
+// A-CFG (assumed, not checked: configuration is not client input): predefined topic names are non-empty.
+//@ assumption [C24] A-CFG: predefined topic names in the gateway's configuration are non-empty (precondition cfgNamesOK of the SUBSCRIBE/UNSUBSCRIBE steps; a PUBLISH on a predefined ID is checked at run time instead)
+//@ assumption [C24] A-PAHO: paho's ControlPacket.Write serialises exactly the fields of the packet it is given
+//@ assumption [C24,C25] A-RECVLOOP: snReceiveLoop hands handleMqttSn exactly the packet ReadPacket returned (precondition decodable = postcondition decoded of ReadPacket)
+//@ pred cfgNamesOK(h *handler1) = forall c string, id uint16 :: nameDefined(h.predefinedTopics, c, id) ==> len(nameSpec(h.predefinedTopics, c, id)) > 0
+
 //@ func (*handler1).mqttSend
 //@   nopanic [C25]
 //@   requires [C25] conn: h.mqttConn != nil
 //@   requires [C25] pkt_nonnil: pkt != nil
+//@   requires [C24] valid: validMqtt(pkt)
 //@   assigns h.mqttOutN, h.mqttOut
 //@   at Write.1 before ghost h.mqttOut = upd(h.mqttOut, h.mqttOutN, pkt)
 //@   at Write.1 before ghost h.mqttOutN = h.mqttOutN + 1
@@ -60,6 +85,7 @@ package gateway
 //@   nopanic [C25]
 //@   requires [C25] inv: hInv(h)
 //@   requires [C25] pkt: snPublish != nil
+//@   requires [C24] decoded_qos: snPublish.QOS <= 3
 //@   requires [C25] tx: txWF(h)
 //@   at Store.0 before assert [C25] new_entry_wf: txEntryWF(h, arg(2))
 //@   ensures [C25] keeps_tx_new: (snPublish.messageID in h.transactions.bypktID) ==> txEntryWF(h, h.transactions.bypktID[snPublish.messageID])
@@ -204,11 +230,17 @@ package gateway
 // Between steps: with authentication enabled the exchange has passed the AUTH phase only after a successful AUTH;
 // with authentication disabled it is never waiting for AUTH.
 //@ pred ctInv(t *connectTransaction) = ctWF(t) && t.state >= 0 && t.state <= 3 &&
-//@      (t.authEnabled && t.state != 0 ==> t.authenticated) && (!t.authEnabled ==> t.state != 0)
+//@      (t.authEnabled && t.state != 0 ==> t.authenticated) && (!t.authEnabled ==> t.state != 0) && willPhase(t)
+// C24: the will part of the MQTT CONNECT under construction follows the exchange: nothing before a WILLTOPIC
+// has been taken, a non-empty topic with QoS 0-2 (and the will flag still set) while the WILLMSG is awaited.
+//@ spec willClean(c *mqPkts.ConnectPacket) bool = len(c.WillTopic) == 0 && c.WillQos == 0 && !c.WillRetain
+//@ pred willPhase(t *connectTransaction) = (t.state <= 1 ==> willClean(t.mqConnect)) &&
+//@      (t.state == 2 ==> t.mqConnect.WillFlag && len(t.mqConnect.WillTopic) > 0 && t.mqConnect.WillQos <= 2)
 
 //@ func newConnectTransaction
 //@   nopanic [C25]
 //@   requires [C25] h: hLite(h) && mqConnect != nil
+//@   requires [C24] no_will_yet: willClean(mqConnect)
 //@   ensures [C09] made: fresh(result) && result.handler == h && result.mqConnect == mqConnect && result.authEnabled == authEnabled &&
 //@      !result.authenticated && result.state == 0 && timedWF(result.TimedTransaction) && fresh(result.TimedTransaction) &&
 //@      !finished(result.TimedTransaction.TransactionBase)
@@ -218,6 +250,8 @@ package gateway
 //@   requires [C23] queue_wf: bufWF(t.handler)
 //@   ensures [C23] keeps_queue_wf: bufWF(t.handler)
 //@   requires [C09] wf: ctWF(t) && (t.authEnabled ==> t.authenticated)
+//@   requires [C24] no_will_yet: willClean(t.mqConnect)
+//@   ensures [C24] still_no_will: willClean(t.mqConnect)
 //@   let h = t.handler
 //@   assigns t.state, h.mqttOutN, h.mqttOut, h.snOutN, h.snOut, h.pktBuffer
 //@   at mqttSend.0 before assert [C08] auth_first: t.authEnabled ==> t.authenticated
@@ -236,6 +270,7 @@ package gateway
 //@   requires [C23] queue_wf: bufWF(t.handler)
 //@   ensures [C23] keeps_queue_wf: bufWF(t.handler)
 //@   requires [C09] fresh_exchange: ctWF(t) && t.state == 0 && !t.authenticated && t.handler.group != nil
+//@   requires [C24] no_will_yet: willClean(t.mqConnect)
 //@   let h = t.handler
 //@   assigns t.state, h.mqttOutN, h.mqttOut, h.snOutN, h.snOut, h.pktBuffer
 //@   ensures [C09] keeps: ctInv(t)
@@ -264,6 +299,7 @@ package gateway
 //@   requires [C23] queue_wf: bufWF(t.handler)
 //@   ensures [C23] keeps_queue_wf: bufWF(t.handler)
 //@   requires [C08] inv: ctInv(t) && snPkt != nil
+//@   tags [C24]
 //@   let h = t.handler
 //@   assigns t.state, t.authenticated, t.mqConnect.UsernameFlag, t.mqConnect.Username, t.mqConnect.PasswordFlag, t.mqConnect.Password,
 //@      h.mqttOutN, h.mqttOut, h.snOutN, h.snOut, h.pktBuffer, armed(t.TimedTransaction.timer), t.TimedTransaction.TransactionBase.err,
@@ -307,6 +343,7 @@ package gateway
 //@ func (*connectTransaction).WillMsg
 //@   nopanic [C25]
 //@   requires [C09] inv: ctInv(t) && snWillMsg != nil
+//@   tags [C24]
 //@   let h = t.handler
 //@   assigns t.state, t.mqConnect.WillMessage, h.mqttOutN, h.mqttOut
 //@   at mqttSend.0 before assert [C08] auth_first: t.authEnabled ==> t.authenticated
@@ -337,6 +374,7 @@ package gateway
 //@ func (*handler1).handleConnect
 //@   nopanic [C25]
 //@   requires [C25] inv: hInv(h) && h.group != nil && snConnect != nil
+//@   tags [C24]
 //@   requires [C25] tx: txWF(h)
 //@   assigns *
 //@   at snSend.1 after let afterConnack = h.snOutN
@@ -433,7 +471,9 @@ package gateway
 
 //@ func (*handler1).handleSubscribe
 //@   nopanic [C25]
-//@   requires [C25] inv: hInv(h) && txWF(h) && snSubscribe != nil && snSubscribe.TopicIDType != 3
+//@   requires [C25] inv: hInv(h) && txWF(h) && snSubscribe != nil && snSubscribe.TopicIDType <= 2
+//@   requires [C24] decoded_name: snSubscribe.TopicIDType == 0 ==> len(snSubscribe.TopicName) >= 1
+//@   requires [C24] cfg_names: cfgNamesOK(h)
 //@   assigns *
 //@   at Store.1 before assert [C25] new_entry_wf: txEntryWF(h, arg(2))
 //@   let n0 = old(h.mqttOutN)
@@ -480,7 +520,9 @@ package gateway
 
 //@ func (*handler1).handleUnsubscribe
 //@   nopanic [C25]
-//@   requires [C25] inv: hInv(h) && snUnsubscribe != nil && snUnsubscribe.TopicIDType != 3
+//@   requires [C25] inv: hInv(h) && snUnsubscribe != nil && snUnsubscribe.TopicIDType <= 2
+//@   requires [C24] decoded_name: snUnsubscribe.TopicIDType == 0 ==> len(snUnsubscribe.TopicName) >= 1
+//@   requires [C24] cfg_names: cfgNamesOK(h)
 //@   assigns h.mqttOutN, h.mqttOut
 //@   let n0 = old(h.mqttOutN)
 //@   ensures [C03] at_most_one: h.mqttOutN == n0 || h.mqttOutN == n0 + 1
@@ -546,15 +588,24 @@ package gateway
 //@   nopanic [C25]
 //@   requires [C25] group: h.group != nil
 //@   ensures [C25] cancel: result != nil
+// The pinger goroutine's body: every keep-alive period one PINGREQ to the broker, nothing else (C14, C24).
+//@ func (*handler1).startSleepPinger$1
+//@   nopanic [C25]
+//@   requires [C25] conn: h != nil && h.mqttConn != nil
+//@   assigns h.mqttOutN, h.mqttOut
+//@   loop 0 invariant [C24] conn: h != nil && h.mqttConn != nil
+//@   loop 0 invariant [C14] only_pingreqs: forall n int :: old(h.mqttOutN) <= n && n < h.mqttOutN ==> istype(h.mqttOut[n], *mqPkts.PingreqPacket)
+//@   ensures [C14,C24] only_pingreqs: forall n int :: old(h.mqttOutN) <= n && n < h.mqttOutN ==> istype(h.mqttOut[n], *mqPkts.PingreqPacket)
 
 // ---- the step for a packet from the client ----
 // decodable: facts every packet produced by the decoder satisfies (C22 postconditions of Unpack).
-//@ pred decodable(pkt iface) = pkt != nil && (istype(pkt, *snPkts1.Subscribe) ==> pkt.(*snPkts1.Subscribe).TopicIDType != 3) &&
-//@      (istype(pkt, *snPkts1.Unsubscribe) ==> pkt.(*snPkts1.Unsubscribe).TopicIDType != 3)
+// (snPkts1.decoded is a postcondition of snPkts1.ReadPacket; snReceiveLoop hands exactly what ReadPacket returned to handleMqttSn.)
+//@ pred decodable(pkt iface) = decoded(pkt)
 
 //@ func (*handler1).handleMqttSn
 //@   nopanic [C25]
 //@   requires [C25] inv: hInv(h) && txWF(h) && h.group != nil && decodable(pkt)
+//@   requires [C24] cfg_names: cfgNamesOK(h)
 //@   assigns *
 //@   let s0 = old(h.snOutN)
 //@   let m0 = old(h.mqttOutN)
